@@ -336,6 +336,8 @@ def C05():
                        mirjobs.size_closures(r"^(preamble|license_binary_blob|server_network_data|rdp_extended_infos)::", 131072, "connection setup")))
     jobs.append(MirJob("c05_mir_gcc_block_length", "read_conference_create_response: the block-length subtraction cannot underflow for any declared length (header length = 4)",
                        mirjobs.fn_asserts(r"^read_conference_create_response$", "GCC server block header", call_model=mirjobs.gcc_call_model, loop_bound=1, native=mirjobs.gcc_native)))
+    jobs.append(MirJob("c05_mir_panic_sites", "connection-setup read path (x224 confirm, GCC response, attach/join confirms, connect response, licence, sec::connect): every reachable unwrap/expect/index/panic call is on a justified allow-list",
+                       mirjobs.panic_sites(mirjobs.SETUP_TARGETS, {r"^read_conference_create_response$": mirjobs.gcc_native_noblocks({})})))
     jobs.append(MirJob("c05_mir_per_integer16", "per::read_integer_16: value + minimum cannot overflow for any wire value and minimum (else it is refused)",
                        mirjobs.fn_asserts(r"^read_integer_16$", "PER integer16", native=mirjobs.per_native)))
     return Prop("C05", [("core/per.rs", "per.rs"), ("core/tpkt.rs", "tpkt.rs"), ("core/x224.rs", "x224.rs"), ("core/mcs.rs", "mcs.rs"), ("core/gcc.rs", "gcc.rs")], jobs, lowerings=["L2"],
@@ -358,6 +360,8 @@ def C06():
                        mirjobs.fn_asserts(r"^mcs::<impl at src/core/mcs\.rs[^>]*>::read$", "MCS send-data-indication header", loop_bound=1)))
     jobs.append(MirJob("c06_mir_size_closures", "every size/skip closure of the session-phase layouts (share control/data headers, demand-active, deactivate-all, capability set, fast-path update, bitmap data, colour pointer): for every value of the wire field no arithmetic check fails and the requested buffer is <= 131072 bytes",
                        mirjobs.size_closures(r"^(share_control_header|share_data_header|ts_demand_active_pdu|ts_confirm_active_pdu|ts_deactivate_all_pdu|capability_set|ts_fp_update|ts_bitmap_data|ts_colorpointerattribute)::", 131072, "active session")))
+    jobs.append(MirJob("c06_mir_panic_sites", "session read path (global::Client::read and its readers, PDU/DataPDU/FastPathUpdate/Capability constructors from wire data, mcs/x224/tpkt read): every reachable unwrap/expect/index/panic call is on a justified allow-list",
+                       mirjobs.panic_sites(mirjobs.SESSION_TARGETS, {r"read_fast_path$": mirjobs.FASTPATH_NATIVE})))
     jobs.append(MirJob("c06_mir_session_arith", "read_fast_path / read_data_pdu / read_demand_active_pdu / PDU::from_control / DataPDU::from_pdu / FastPathUpdate::from_fp / Capability::from_capability_set: no arithmetic check (overflow, division, index) of their own can fail on wire values",
                        mirjobs.multi(*[mirjobs.fn_asserts(rx, "session PDU field", loop_bound=1, native=(lambda m: mirjobs.FASTPATH_NATIVE) if "fast_path" in rx else None)
                                        for rx in (r"^global::<impl at src/core/global\.rs[^>]*>::read_fast_path$", r"^global::<impl at src/core/global\.rs[^>]*>::read_data_pdu$",
